@@ -28,7 +28,7 @@ noncomputable instance : Fn ℝ where
   atan    := Real.arctan
   pow     := fun x y => x ^ y
   floor   := fun x => (⌊x⌋ : ℝ)
-  round   := fun x => (round x : ℝ)
+  round   := fun x => if 0 ≤ x then (⌊x + 1 / 2⌋ : ℝ) else (⌈x - 1 / 2⌉ : ℝ)   -- C `round`: half away from zero
   tanh    := Real.tanh
 
 @[simp] theorem fn_ofNat (n : Nat) : (Fn.ofNat n : ℝ) = n := rfl
@@ -43,6 +43,8 @@ noncomputable instance : Fn ℝ where
 @[simp] theorem fn_log10 (x : ℝ) : Fn.log10 x = Real.log x / Real.log 10 := rfl
 @[simp] theorem fn_atan (x : ℝ) : Fn.atan x = Real.arctan x := rfl
 @[simp] theorem fn_pow (x y : ℝ) : Fn.pow x y = x ^ y := rfl
+theorem fn_round (x : ℝ) : Fn.round x = if 0 ≤ x then (⌊x + 1 / 2⌋ : ℝ) else (⌈x - 1 / 2⌉ : ℝ) := rfl
+theorem fn_floor (x : ℝ) : Fn.floor x = (⌊x⌋ : ℝ) := rfl
 
 namespace Cx
 
